@@ -1,0 +1,70 @@
+//go:build verif
+
+// Contracts for the verification machinery in /verif (comment-only; never compiled into a binary).
+// Property C13: admitted pods obey the QoS/priority protocol and keep their declared amounts (validating half).
+
+package validating
+
+//@ uses apis/extension
+
+//@ spec func cfgOK() bool = extension.rangesOK() && extension.DefaultPriorityClass == extension.PriorityNone
+
+//@ spec func inClasses(cs []extension.PriorityClass, c extension.PriorityClass) bool = exists i int :: 0 <= i && i < len(cs) && cs[i] == c
+
+//@ func forbidSpecialQoSClassAndPriorityClass [C13]
+//@   requires cfgOK()
+//@   ensures #count: len(result) == ((extension.podQoS(pod) == qoSClass && inClasses(priorityClasses, extension.podPrio(pod))) ? 1 : 0)
+//@   modifies nothing
+//@   loop 1 invariant 0 <= $i && $i <= len(priorityClasses)
+//@   loop 1 invariant !found && len(allErrs) == 0
+//@   loop 1 invariant forall j int :: 0 <= j && j < $i ==> priorityClasses[j] != priorityClass
+
+// Pod-level request as computed by util.GetPodRequest (k8s resourcehelper.PodRequests); uninterpreted observer of the pod.
+//@ spec func podReq(pod *corev1.Pod) corev1.ResourceList = util.GetPodRequest(pod, nil)
+
+//@ spec func wantsBatch(pod *corev1.Pod) bool = val(podReq(pod), extension.BatchCPU) != 0 || val(podReq(pod), extension.BatchMemory) != 0
+
+//@ spec func isLSRorLSE(pod *corev1.Pod) bool = extension.podQoS(pod) == extension.QoSLSR || extension.podQoS(pod) == extension.QoSLSE
+
+// whole number of CPUs at the milli-core granularity the code tests (Value()*1000 == MilliValue())
+
+// whole number of CPUs, exactly (the property statement)
+//@ spec func cpuWhole(pod *corev1.Pod) bool = floor(val(podReq(pod), corev1.ResourceCPU)) == ceil(val(podReq(pod), corev1.ResourceCPU))
+
+//@ func validateRequiredQoSClass [C13]
+//@   ensures #count: len(result) == ((wantsBatch(pod) && extension.podQoS(pod) != extension.QoSBE) ? 1 : 0)
+//@   modifies nothing
+
+//@ func validateResources [C13]
+//@   ensures #count: len(result) == ((isLSRorLSE(pod) && (val(podReq(pod), corev1.ResourceCPU) == 0 || !cpuWhole(pod))) ? 1 : 0)
+//@   ensures #whole: len(result) == 0 && isLSRorLSE(pod) ==> val(podReq(pod), corev1.ResourceCPU) != 0 && cpuWhole(pod)
+//@   modifies nothing
+
+//@ func validateImmutableQoSClass [C13]
+//@   ensures #count: len(result) == (extension.podQoS(oldPod) == extension.podQoS(newPod) ? 0 : 1)
+//@   modifies nothing
+
+//@ func validateImmutablePriorityClass [C13]
+//@   requires cfgOK()
+//@   ensures #count: len(result) == (extension.podPrio(oldPod) == extension.podPrio(newPod) ? 0 : 1)
+//@   modifies nothing
+
+//@ func validateImmutablePriority [C13]
+//@   requires oldPod != nil && newPod != nil
+//@   ensures #count: len(result) == (oldPod.ObjectMeta.Labels[extension.LabelPodPriority] == newPod.ObjectMeta.Labels[extension.LabelPodPriority] ? 0 : 1)
+//@   modifies nothing
+
+// permitted (QoS, priority class) pairs: BE never with prod or no priority; LSR only with prod
+//@ spec func pairOK(pod *corev1.Pod) bool = !(extension.podQoS(pod) == extension.QoSBE && (extension.podPrio(pod) == extension.PriorityNone || extension.podPrio(pod) == extension.PriorityProd)) && !(extension.podQoS(pod) == extension.QoSLSR && extension.podPrio(pod) != extension.PriorityProd)
+
+//@ spec func skipPrioGate() bool = utilfeature.DefaultFeatureGate.Enabled(features.ColocationProfileSkipValidatingPriority)
+
+//@ spec func immutableOK(oldPod *corev1.Pod, newPod *corev1.Pod) bool = extension.podQoS(oldPod) == extension.podQoS(newPod) && extension.podPrio(oldPod) == extension.podPrio(newPod) && (skipPrioGate() || oldPod.ObjectMeta.Labels[extension.LabelPodPriority] == newPod.ObjectMeta.Labels[extension.LabelPodPriority])
+
+//@ func (*PodValidatingHandler).clusterColocationProfileValidatingPod [C13]
+//@   requires cfgOK()
+//@   requires newPod != nil && (req.AdmissionRequest.Operation == admissionv1.Update ==> oldPod != nil)
+//@   ensures #iff: result0 <==> (pairOK(newPod) && (wantsBatch(newPod) ==> extension.podQoS(newPod) == extension.QoSBE) && (isLSRorLSE(newPod) ==> val(podReq(newPod), corev1.ResourceCPU) != 0 && cpuWhole(newPod)) && (req.AdmissionRequest.Operation == admissionv1.Update ==> immutableOK(oldPod, newPod)))
+//@   ensures #whole: result0 && isLSRorLSE(newPod) ==> cpuWhole(newPod)
+//@   ensures #err: result0 <==> result2 == nil
+//@   modifies nothing
